@@ -221,6 +221,25 @@ def o_cert(case, res, rep, rng):
                                 per_block=d))
 
 
+def o_stop_value(case, res, rep, rng):
+    out = res["out"]
+    if out is None or case.solver in ("FISTA", "LBFGS"):
+        return
+    w, obj, stop = out
+    tol = tol_of(case)
+    strat = case.knobs.get("ws_strategy", "subdiff")
+    if not (stop <= tol) or not np.all(np.isfinite(w)) or strat != "subdiff":
+        return
+    v, d = case.cert(w, rng)
+    ww, _ = case.split(w)
+    slack = 1e-6 * (1 + float(np.max(np.abs(case.X))) * (1 + (float(np.max(np.abs(ww))) if ww.size else 0)))
+    if not v <= stop * (1 + 1e-5) + slack:
+        rep.violate("the run stopped on its tolerance but the returned stopping value is smaller than the optimality "
+                    "violation of the returned point", dict(case.signature(site=f"{case.solver}.solve"), kind="stop-value"),
+                    case=case.describe(), impl_output=dict(stop_crit=float(stop), w=np.asarray(w).tolist()),
+                    oracle=dict(violation=v))
+
+
 def o_buffer(case, res, rep, rng):
     out = res["out"]
     if out is None or res["Xw_buf"] is None or case.solver in ("FISTA", "LBFGS", "GramCD"):
@@ -301,7 +320,7 @@ def o_descent(case, res, rep, rng):
                     impl_output=dict(w=np.asarray(w).tolist()), oracle=dict(start=f0, returned=f1))
 
 
-ORACLES = dict(cert=o_cert, buffer=o_buffer, feasible=o_finite_feasible, history=o_history,
+ORACLES = dict(cert=o_cert, stop_value=o_stop_value, buffer=o_buffer, feasible=o_finite_feasible, history=o_history,
                history_len=o_history_len, descent=o_descent)
 
 
